@@ -65,6 +65,23 @@ pub fn check_main(def: &CheckDef, tier: Tier, seed: u64) -> i32 {
             }
         }
     }
+    if std::env::var("MEMSIM_SWEEP").is_ok() {
+        // triage mode: list every signature seen (known or not) with a count; no shrinking, no
+        // replay files, no evidence, always exit 0
+        let mut counts: std::collections::BTreeMap<String, (u64, u64, String)> = Default::default();
+        for r in &agg.violating {
+            for v in r.violations.iter().filter(|v| v.props.iter().any(|p| p == def.id)) {
+                let sg = signature(def.id, &v.oracle, &v.sig);
+                let e = counts.entry(sg).or_insert((0, r.seed, v.msg.chars().take(260).collect()));
+                e.0 += 1;
+            }
+        }
+        for (sg, (n, seed, msg)) in &counts {
+            println!("SWEEP-SIG {} {} n={n} seed={seed} : {msg}", if known_sigs.contains(sg) { "known" } else { "NEW" }, sg);
+        }
+        println!("sweep: {} runs, seeds {}..{}, {} child deaths, {} harness errors", agg.evaluations, agg.first_seed, agg.last_seed, agg.crashed_children.len(), agg.harness_errors.len());
+        return 0;
+    }
     let _ = std::fs::create_dir_all(format!("{}/replays", verif_dir()));
     for (sig, r) in by_sig.iter() {
         let v = r.violations.iter().find(|v| signature(def.id, &v.oracle, &v.sig) == *sig).unwrap();
